@@ -5,6 +5,8 @@ package harness
 
 import (
 	"fmt"
+	"os"
+	"strconv"
 	"sort"
 	"strings"
 	"testing"
@@ -276,6 +278,9 @@ func execRun(t *testing.T, sc *Scenario, tier string, seed uint64, overrides map
 			rc.Ch = simrt.NewChooser(seed, overrides)
 			rc.S = simrt.New(rc.Ch, synctest.Wait)
 			rc.Net = simnet.NewNet(rc.S)
+			if n, err := strconv.Atoi(os.Getenv("VERIF_TRACEMAX")); err == nil && n > 0 {
+				rc.S.TraceMax = n
+			}
 			simrt.Active = rc.S
 			defer func() { simrt.Active = nil }()
 			func() {
